@@ -7,13 +7,22 @@ use core::hash::Hash;
 use core::marker::PhantomData;
 use core::ops::{Index, IndexMut};
 
-#[cfg(feature = "max3")]
+#[cfg(feature = "max2")]
+pub const MAX_NODES: usize = 2;
+#[cfg(all(feature = "max3", not(feature = "max2")))]
 pub const MAX_NODES: usize = 3;
-#[cfg(all(feature = "max4", not(feature = "max3")))]
+#[cfg(all(feature = "max4", not(any(feature = "max2", feature = "max3"))))]
 pub const MAX_NODES: usize = 4;
-#[cfg(not(any(feature = "max3", feature = "max4")))]
-pub const MAX_NODES: usize = 6;
-pub const MAX_EDGES: usize = MAX_NODES * (MAX_NODES - 1) / 2;
+#[cfg(all(feature = "max5", not(any(feature = "max2", feature = "max3", feature = "max4"))))]
+pub const MAX_NODES: usize = 5;
+#[cfg(not(any(feature = "max2", feature = "max3", feature = "max4", feature = "max5")))]
+pub const MAX_NODES: usize = 3;
+/// Room for every edge of a simple DAG plus two parallel edges, so that code
+/// which (wrongly) adds duplicate edges fails its own oracle before it trips
+/// the model bound.
+pub const MAX_EDGES: usize = MAX_NODES * (MAX_NODES - 1) / 2 + 2;
+/// Per-node adjacency list capacity.
+pub const ADJ: usize = MAX_NODES + 1;
 
 pub unsafe trait IndexType: Copy + Default + Hash + Ord + Debug + 'static {
     fn new(x: usize) -> Self;
@@ -81,14 +90,23 @@ impl<E, Ix: IndexType> Edge<E, Ix> {
 #[derive(Debug, Clone, Copy, PartialEq, Eq)]
 pub struct WouldCycle<E>(pub E);
 
+/// The graph structure lives in plain `u8` arrays (endpoints, adjacency lists,
+/// reachability) so that every walk, topological sort and cycle test is array
+/// arithmetic over small integers; node and edge weights live in `Vec`s whose
+/// storage is reserved once and which only `raw_nodes` / `raw_edges` /
+/// indexing touch.
 #[derive(Clone, Debug)]
 pub struct Dag<N, E, Ix = u32> {
     nodes: Vec<Node<N, Ix>>,
     edges: Vec<Edge<E, Ix>>,
+    n_nodes: u8,
+    n_edges: u8,
+    e_src: [u8; MAX_EDGES],
+    e_dst: [u8; MAX_EDGES],
     /// out_e[n][k] / in_e[n][k]: edge indices in insertion order.
-    out_e: [[u8; MAX_NODES]; MAX_NODES],
+    out_e: [[u8; ADJ]; MAX_NODES],
     out_n: [u8; MAX_NODES],
-    in_e: [[u8; MAX_NODES]; MAX_NODES],
+    in_e: [[u8; ADJ]; MAX_NODES],
     in_n: [u8; MAX_NODES],
     /// reach[a] bit b: there is a path a ->* b (reflexive).
     reach: [u16; MAX_NODES],
@@ -113,9 +131,13 @@ impl<N, E, Ix: IndexType> Dag<N, E, Ix> {
         Dag {
             nodes: Vec::with_capacity(MAX_NODES),
             edges: Vec::with_capacity(MAX_EDGES),
-            out_e: [[0; MAX_NODES]; MAX_NODES],
+            n_nodes: 0,
+            n_edges: 0,
+            e_src: [0; MAX_EDGES],
+            e_dst: [0; MAX_EDGES],
+            out_e: [[0; ADJ]; MAX_NODES],
             out_n: [0; MAX_NODES],
-            in_e: [[0; MAX_NODES]; MAX_NODES],
+            in_e: [[0; ADJ]; MAX_NODES],
             in_n: [0; MAX_NODES],
             reach,
         }
@@ -124,10 +146,10 @@ impl<N, E, Ix: IndexType> Dag<N, E, Ix> {
         Self::new()
     }
     pub fn node_count(&self) -> usize {
-        self.nodes.len()
+        self.n_nodes as usize
     }
     pub fn edge_count(&self) -> usize {
-        self.edges.len()
+        self.n_edges as usize
     }
     pub(crate) fn reach_bit(&self, a: usize, b: usize) -> bool {
         self.reach[a] & (1 << b) != 0
@@ -136,21 +158,26 @@ impl<N, E, Ix: IndexType> Dag<N, E, Ix> {
         self
     }
     pub fn node_indices(&self) -> NodeIndices<Ix> {
-        NodeIndices { r: 0..self.nodes.len(), _ix: PhantomData }
+        NodeIndices { r: 0..self.n_nodes as usize, _ix: PhantomData }
     }
     pub fn add_node(&mut self, weight: N) -> NodeIndex<Ix> {
-        assert!(self.nodes.len() < MAX_NODES, "model bound MAX_NODES exceeded");
+        assert!((self.n_nodes as usize) < MAX_NODES, "model bound exceeded: MAX_NODES");
         self.nodes.push(Node { weight, _ix: PhantomData });
-        NodeIndex::new(self.nodes.len() - 1)
+        self.n_nodes += 1;
+        NodeIndex::new(self.n_nodes as usize - 1)
     }
     pub fn find_edge(&self, a: NodeIndex<Ix>, b: NodeIndex<Ix>) -> Option<EdgeIndex<Ix>> {
-        // petgraph walks a's outgoing list, most recent first
-let mut found = None;
+        // petgraph walks a's outgoing list most recent first and returns the
+        // first match, i.e. the most recently added a -> b edge.
+        if a.index() >= self.n_nodes as usize {
+            return None;
+        }
+        let mut found = None;
         let mut k = 0;
-        while k < MAX_NODES {
+        while k < ADJ {
             if k < self.out_n[a.index()] as usize {
                 let ei = self.out_e[a.index()][k] as usize;
-                if self.edges[ei].node[1] == b {
+                if self.e_dst[ei] as usize == b.index() {
                     found = Some(EdgeIndex::new(ei));
                 }
             }
@@ -159,14 +186,19 @@ let mut found = None;
         found
     }
     pub fn add_edge(&mut self, a: NodeIndex<Ix>, b: NodeIndex<Ix>, weight: E) -> Result<EdgeIndex<Ix>, WouldCycle<E>> {
-        assert!(a.index() < self.nodes.len() && b.index() < self.nodes.len(), "node index out of bounds");
+        // petgraph panics when either index is out of bounds.
+        assert!(a.index() < self.n_nodes as usize && b.index() < self.n_nodes as usize, "Graph::add_edge: node indices out of bounds");
         if petgraph::algo::has_path_connecting(&*self, b, a, None) {
             return Err(WouldCycle(weight));
         }
-        assert!(self.edges.len() < MAX_EDGES, "model bound MAX_EDGES exceeded");
-        self.edges.push(Edge { weight, node: [a, b] });
-        let ei = self.edges.len() - 1;
         let (ai, bi) = (a.index(), b.index());
+        assert!((self.n_edges as usize) < MAX_EDGES, "model bound exceeded: MAX_EDGES");
+        assert!((self.out_n[ai] as usize) < ADJ && (self.in_n[bi] as usize) < ADJ, "model bound exceeded: ADJ");
+        self.edges.push(Edge { weight, node: [a, b] });
+        let ei = self.n_edges as usize;
+        self.n_edges += 1;
+        self.e_src[ei] = ai as u8;
+        self.e_dst[ei] = bi as u8;
         self.out_e[ai][self.out_n[ai] as usize] = ei as u8;
         self.out_n[ai] += 1;
         self.in_e[bi][self.in_n[bi] as usize] = ei as u8;
@@ -191,6 +223,9 @@ let mut found = None;
     pub fn edge_weight(&self, e: EdgeIndex<Ix>) -> Option<&E> {
         self.edges.get(e.index()).map(|e| &e.weight)
     }
+    pub fn edge_endpoints(&self, e: EdgeIndex<Ix>) -> Option<(NodeIndex<Ix>, NodeIndex<Ix>)> {
+        self.edges.get(e.index()).map(|e| (e.node[0], e.node[1]))
+    }
     pub fn node_weight(&self, n: NodeIndex<Ix>) -> Option<&N> {
         self.nodes.get(n.index()).map(|n| &n.weight)
     }
@@ -212,13 +247,13 @@ let mut found = None;
     pub fn parents(&self, child: NodeIndex<Ix>) -> Parents<N, E, Ix> {
         Parents { node: child, next: self.in_n[child.index()] as usize, _m: PhantomData }
     }
-    fn has_incoming_unordered(&self, n: NodeIndex<Ix>, ordered: &[bool; MAX_NODES]) -> bool {
+    fn has_incoming_unordered(&self, n: usize, ordered: &[bool; MAX_NODES]) -> bool {
         let mut r = false;
         let mut k = 0;
-        while k < MAX_NODES {
-            if k < self.in_n[n.index()] as usize {
-                let ei = self.in_e[n.index()][k] as usize;
-                if !ordered[self.edges[ei].node[0].index()] {
+        while k < ADJ {
+            if k < self.in_n[n] as usize {
+                let ei = self.in_e[n][k] as usize;
+                if !ordered[self.e_src[ei] as usize] {
                     r = true;
                 }
             }
@@ -299,7 +334,7 @@ impl<'a, N, E, Ix: IndexType> Walker<&'a Dag<N, E, Ix>> for Children<N, E, Ix> {
         }
         self.next -= 1;
         let ei = dag.out_e[self.node.index()][self.next] as usize;
-        Some((EdgeIndex::new(ei), dag.edges[ei].node[1]))
+        Some((EdgeIndex::new(ei), NodeIndex::new(dag.e_dst[ei] as usize)))
     }
 }
 pub struct Parents<N, E, Ix> {
@@ -315,7 +350,7 @@ impl<'a, N, E, Ix: IndexType> Walker<&'a Dag<N, E, Ix>> for Parents<N, E, Ix> {
         }
         self.next -= 1;
         let ei = dag.in_e[self.node.index()][self.next] as usize;
-        Some((EdgeIndex::new(ei), dag.edges[ei].node[0]))
+        Some((EdgeIndex::new(ei), NodeIndex::new(dag.e_src[ei] as usize)))
     }
 }
 
@@ -349,44 +384,53 @@ pub mod petgraph {
     }
     pub mod visit {
         pub use crate::Walker;
-        use crate::{Dag, IndexType, NodeIndex, MAX_NODES};
+        use crate::{Dag, IndexType, NodeIndex, ADJ, MAX_EDGES, MAX_NODES};
         /// Present so `use ...::IntoNodeReferences` compiles; the method is inherent in the model.
         pub trait IntoNodeReferences {}
         impl<'a, N, E, Ix: IndexType> IntoNodeReferences for &'a Dag<N, E, Ix> {}
 
         #[derive(Clone, Debug)]
         pub struct Topo<N, VM> {
-            tovisit: [usize; MAX_NODES],
-            ntovisit: usize,
+            tovisit: [u8; MAX_NODES + MAX_EDGES],
+            ntovisit: u8,
             ordered: [bool; MAX_NODES],
             _m: core::marker::PhantomData<(N, VM)>,
         }
         impl<Ix: IndexType> Topo<NodeIndex<Ix>, fixedbitset::FixedBitSet> {
+            /// petgraph: the initial stack holds every node without incoming
+            /// edges, in index order.
             pub fn new<N, E>(g: &Dag<N, E, Ix>) -> Self {
-                let mut t = Topo { tovisit: [0; MAX_NODES], ntovisit: 0, ordered: [false; MAX_NODES], _m: core::marker::PhantomData };
+                let mut t = Topo { tovisit: [0; MAX_NODES + MAX_EDGES], ntovisit: 0, ordered: [false; MAX_NODES], _m: core::marker::PhantomData };
                 let mut i = 0;
-                while i < g.node_count() {
-                    if !g.has_incoming_unordered(NodeIndex::new(i), &[false; MAX_NODES]) {
-                        t.tovisit[t.ntovisit] = i;
+                while i < MAX_NODES {
+                    if i < g.node_count() && g.in_n[i] == 0 {
+                        t.tovisit[t.ntovisit as usize] = i as u8;
                         t.ntovisit += 1;
                     }
                     i += 1;
                 }
                 t
             }
+            /// petgraph: pop until an unvisited node is found, mark it, push
+            /// every neighbour (most recent edge first) all of whose incoming
+            /// neighbours are visited, return the node.
             pub fn next<N, E>(&mut self, g: &Dag<N, E, Ix>) -> Option<NodeIndex<Ix>> {
                 while self.ntovisit > 0 {
                     self.ntovisit -= 1;
-                    let nix = self.tovisit[self.ntovisit];
+                    let nix = self.tovisit[self.ntovisit as usize] as usize;
                     if self.ordered[nix] {
                         continue;
                     }
                     self.ordered[nix] = true;
-                    let mut ch = g.children(NodeIndex::new(nix));
-                    while let Some((_e, c)) = ch.walk_next(g) {
-                        if !g.has_incoming_unordered(c, &self.ordered) {
-                            self.tovisit[self.ntovisit] = c.index();
-                            self.ntovisit += 1;
+                    let mut k = ADJ;
+                    while k > 0 {
+                        k -= 1;
+                        if k < g.out_n[nix] as usize {
+                            let c = g.e_dst[g.out_e[nix][k] as usize] as usize;
+                            if !g.has_incoming_unordered(c, &self.ordered) {
+                                self.tovisit[self.ntovisit as usize] = c as u8;
+                                self.ntovisit += 1;
+                            }
                         }
                     }
                     return Some(NodeIndex::new(nix));
